@@ -93,6 +93,8 @@ def determinism(ids, jobs=None, n=200):
         he = sum(1 for l in runs[0] if " HE " in l)
         print("%s: %d seeds x 4 configurations (jobs 1/4/16, hash seeds 0/12345): %s%s" % (
             pid, n, "IDENTICAL" if same else "DIFFERENT", (" (%d harness errors)" % he) if he else ""))
+        if he:
+            bad += 1  # a digest of a run that ended in a harness error proves nothing
         if not same:
             bad += 1
             for a, b in zip(runs[0], runs[3]):
